@@ -700,6 +700,13 @@ func tStrConcat(a, b *Term) *Term {
 			return toBlob(a)
 		}
 		a, b = toBlob(a), toBlob(b)
+		// distribute over ite so that concatenations of selected values normalise too
+		if a.Op == "ite" {
+			return tIte(a.Args[0], tStrConcat(a.Args[1], b), tStrConcat(a.Args[2], b))
+		}
+		if b.Op == "ite" {
+			return tIte(b.Args[0], tStrConcat(a, b.Args[1]), tStrConcat(a, b.Args[2]))
+		}
 		// flatten into a normalised piece list (adjacent string images merged) so that
 		// differently associated concatenations are syntactically equal
 		var pieces []*Term
